@@ -133,11 +133,19 @@ def gen_plans(n, seed):
     return plans
 
 
-NAMINGS = ("suffix", "suffixlast", "prefix", "prefixlast", "dotted")
+NAMINGS = ("suffix", "suffixlast", "prefix", "prefixlast", "dotted", "globlast", "globfirst", "wildcards", "punct", "digits", "long")
+
+
+def real_names(names):
+    """\\uXXXX in a name emitted by TLC stands for that character (the spec source is ASCII)"""
+    return [n.encode("ascii").decode("unicode_escape") if "\\u" in n else n for n in names]
+
 
 
 def prepare_namings(in_dir, recs):
     """input records for every naming scheme TLC explored, one directory per (scheme, n)"""
+    for r in recs:
+        r["names"] = real_names(r["names"])
     for naming, names in {(r["naming"], tuple(r["names"])) for r in recs if r["naming"] != "plain"}:
         d = Path(in_dir) / f"{naming}-{len(names)}"
         d.mkdir(exist_ok=True)
@@ -759,7 +767,7 @@ def check(run: Run):
                     ("MC_ComposedApp_quick.cfg", "n2-all", True),
                     (write_cfg(scratch, "MC_n3_pairwise.cfg", 3, [0, 1, 2, 3], [True, False], plans3), "n3-pairwise", True),
                     # identifiers related by suffix / prefix / containing dots (serial order)
-                    (write_cfg(scratch, "MC_n3_names.cfg", 3, [0], [True, False], plans3[::3], namings=NAMINGS), "n3-names", True),
+                    (write_cfg(scratch, "MC_n3_names.cfg", 3, [0], [True, False], plans3[::5], namings=NAMINGS), "n3-names", True),
                     # the collection of inputs handed over as a tuple, a generator, a map, reversed(), a glob ..
                     (write_cfg(scratch, "MC_n3_reps.cfg", 3, [0], [True, False], plans3[::12], reps=REPS[1:]), "n3-reps", True),
                 ]
